@@ -198,28 +198,26 @@ def removeAt : Tree → List Bool → Option (Tree × Elem)
     if d then (removeAt r ds).map (fun (r', n) => (node l x r', n))
     else (removeAt l ds).map (fun (l', n) => (node l' x r, n))
 
-def rootKeyGt (t : Tree) (k : Int) : Bool :=
-  match t with
-  | nil => false
-  | node _ x _ => x.key > k
-
 /-- `*n = *root; root = n;` followed by the do/while of `cstl_heap_pop`:
 `n` takes the root position of the given tree (whose root element is the one
 being returned) and is exchanged with the chosen child until it is its own
-candidate.  Candidate rule of the C code: `c = n`; `l` if `l > c`; then `r`
-if `r > c`. -/
+candidate.  Candidate rule of the C code: `c = n`; `c = l` if `l != NULL` and
+`l > c`; then `c = r` if `r != NULL` and `r > c` (so the left child is taken
+only if it is `>` n, the right child only if it is `>` the current candidate). -/
 def siftInto (n : Elem) : Tree → Tree
   | nil => nil
   | node l _ r =>
-    let goL := rootKeyGt l n.key
-    let ck : Int := match l with
-      | node _ x _ => if goL then x.key else n.key
-      | nil => n.key
-    let goR := rootKeyGt r ck
-    match goR, r, goL, l with
-    | true, node _ y _, _, _ => node l y (siftInto n r)
-    | _, _, true, node _ x _ => node (siftInto n l) x r
-    | _, _, _, _ => node l n r
+    match l, r with
+    | nil, nil => node nil n nil
+    | nil, node _ y _ =>
+      if y.key > n.key then node nil y (siftInto n r) else node nil n r
+    | node _ x _, nil =>
+      if x.key > n.key then node (siftInto n l) x nil else node l n nil
+    | node _ x _, node _ y _ =>
+      let ck : Int := if x.key > n.key then x.key else n.key
+      if y.key > ck then node l y (siftInto n r)
+      else if x.key > n.key then node (siftInto n l) x r
+      else node l n r
 
 /-- `cstl_heap_pop`: new state and result (`none` = NULL) -/
 def pop (h : Heap) : Option (Heap × Option Elem) :=
